@@ -550,8 +550,8 @@ func c02Case(w *core.Worker, i int) {
 	if i%10 == 0 {
 		type fx struct {
 			name, body, pos string
-			noHeader       bool
-			want           [][]string
+			noHeader        bool
+			want            [][]string
 		}
 		for _, f := range []fx{
 			{"fxh.txt", "id c1  \n1  abcd\n2  wxyz\n3  ijkl\n", "[3,7]", false, [][]string{{"1", "abcd"}, {"2", "UPD"}, {"3", "ijkl"}}},
